@@ -19,6 +19,8 @@ def build(rng, tier):
             for entry in ('proc', 'preq'):
                 for hs in ([], [('Origin', 'http://o.example')],
                            [('Origin', 'http://o.example'), ('Access-Control-Request-Method', 'PUT'), ('Access-Control-Request-Headers', 'X-Custom, Content-Type')],
+                           [('Origin', 'http://o.example'), ('Access-Control-Request-Method', rng.choice(['PUT', 'DELETE', 'POST', 'PATCH', 'GET']))],   # what a browser sends when only safelisted headers are used
+                           [('Origin', 'https://app.example:8443'), ('Access-Control-Request-Headers', 'x-one'), ('Access-Control-Request-Method', 'DELETE')],
                            [('Range', 'bytes=0-')], [('Range', 'bytes=0-0')]):
                     q = rng.choice(['', '', '?v=1'])
                     for m in ('GET', 'HEAD', 'OPTIONS'):
@@ -60,8 +62,20 @@ def judge(res, results):
             names = [n for n, _ in o['headers']]
             need = ['Access-Control-Allow-Origin']
             if any(n == 'Access-Control-Request-Method' for n, _ in co.headers):
-                need += ['Access-Control-Allow-Methods', 'Access-Control-Allow-Headers']
+                need += ['Access-Control-Allow-Methods']
+                if any(n == 'Access-Control-Request-Headers' for n, _ in co.headers): need += ['Access-Control-Allow-Headers']
             miss = [n for n in need if n not in names]
+            if not miss and len(need) > 1:
+                # the grants have to cover what was asked for, otherwise the browser's preflight still fails
+                got = {n: v for n, v in o['headers']}
+                def covers(grant, asked):
+                    g = [x.strip().lower() for x in grant.split(',')]
+                    return '*' in g or all(a.strip().lower() in g for a in asked.split(',') if a.strip())
+                ask = {n: v for n, v in co.headers}
+                if not covers(got['Access-Control-Allow-Methods'], ask['Access-Control-Request-Method']): miss.append('Access-Control-Allow-Methods covering ' + ask['Access-Control-Request-Method'])
+                if 'Access-Control-Request-Headers' in ask and not covers(got['Access-Control-Allow-Headers'], ask['Access-Control-Request-Headers']):
+                    miss.append('Access-Control-Allow-Headers covering ' + ask['Access-Control-Request-Headers'])
+                if got['Access-Control-Allow-Origin'] not in ('*', ask['Origin']): miss.append('Access-Control-Allow-Origin naming the origin')
             if miss:
                 res.fail('preflight-grants-missing', co.line[:300], str(miss), None, f'C09: OPTIONS preflight for {co.target!r} lacks {miss}')
 
@@ -71,6 +85,6 @@ def run(res, tier, seed):
     results = K.run_batches(batches, with_model=WITH_MODEL)
     judge(res, results)
     res.rule = ('all servable paths of generated trees (files, directory indexes, .html fallbacks, built-in pages) and a missing one x {GET, HEAD, OPTIONS} x '
-                '{no Origin, Origin, Origin+preflight headers, Range 0-, Range 0-0} x both entry points; judged as triples; distinct = (entry, request)')
+                '{no Origin, Origin, Origin+Request-Method+Request-Headers, Origin+Request-Method only, Range 0-, Range 0-0} x both entry points; judged as triples; distinct = (entry, request)')
     for c, r, il, ml in results[:3]:
         res.sample({'entry': c.entry, 'request': c.raw[:80].decode('latin1'), 'status_line': r['recv'][:30].decode('latin1')})
